@@ -112,6 +112,7 @@ func runC12(c *Ctx) {
 	c12IssueInstant(c)
 	c12Destinations(c)
 	c12Retained(c)
+	c12History(c)
 }
 
 // ---------- net/url codec vs UrlEnc ----------
